@@ -68,6 +68,14 @@ claim('C08', 'other',
       FORMULA_NOTE + ' Sod states are the library\'s hard-coded (1,1) / (1/8,1/8); fractional powers are opaque atoms with v^q = base^p axioms, so the relation list is claimed for the listed rational Gamma values; bisection is bounded by the stated unrolling.',
       'symbolic execution of LLVM IR with uninterpreted func / summarised rtbis + SMT (z3 nlsat) identities and inequalities', 'DESIGN.md §4 C08')
 
+claim('C09', 'other',
+      'Solver-decidable part of the accuracy property, on the long double instantiation of every evaluator of the solutions of C01-C08: (1) every FP constant is the 64-bit rounding of a simple rational (a double-rounded constant fails), '
+      '(2) perturbation model of type purity: each value narrowed to double is multiplied by (1+delta) and z3 decides whether the result depends on delta, (3) pi/PI initialisers call acosl for long double, '
+      '(4) definedness in the real model: admissibility => every denominator of the Euler/Navier-Stokes evaluators is non-zero. Flagged items are confirmed against a 50-digit evaluation (error > 2^-56 of the scale) before being reported. '
+      'The formula layer of both instantiations is C01-C08.',
+      'NOT decided and outside the claim: the quantitative bound (small multiple of unit roundoff) for the compiled arithmetic and glibc libm -- no solver here has a theory of binary floating point with sin/cos/pow/exp; overflow; effects of fast-math style compiler flags (the encoding uses -ffp-contract=off, no fast-math, like the -O0 baseline).',
+      'symbolic execution of LLVM IR with a perturbation model of narrowing + type-relative constant analysis + SMT definedness queries', 'DESIGN.md §4 C09')
+
 STRUCT_NOTE = ('Contract models of std::string/map/vector/ostream (libstdc++ internals not analysed); allocation succeeds; masa_map summarised by its C13 contract inside masa_init; '
                'trusted: clang-14 lowering, irdump+Engine A, z3 for path-condition feasibility; every reported counterexample is replayed on a g++ -O0 build through the public API.')
 claim('C07', 'other',
